@@ -379,8 +379,9 @@ func aggregateRows(selectList sql.SelectList, groupBy []sql.ColumnReference, row
 				}
 
 				// update the count of this particular group key + value
-				// combination
-				countKey := fmt.Sprintf("%s%s", key, avgCol)
+				// combination. the position in the select list keeps two
+				// avg() over the same column apart
+				countKey := fmt.Sprintf("%s%s#%d", key, avgCol, colIdx)
 				if _, ok := counts[countKey]; !ok {
 					counts[countKey] = 0
 				}
